@@ -7,14 +7,22 @@
 //!
 //!  (a) every choice sequence with at most 2 (quick) / 3 (thorough) deviations from the benign default;
 //!  (b) the FULL product of the binding core {signature, kid, method-id override, scope, credential
-//!      issuer, entry point}, alone (quick) and crossed with every single other deviation (thorough).
+//!      issuer, entry point}, alone (quick) and crossed with every single other deviation (thorough);
+//!  (c) full products over the public unit predicates of `JwtCredentialValidatorUtils` on credentials
+//!      built directly (several subjects, boundary instants of the whole timestamp range, status
+//!      checked against [I], [J,I], [J]) — shapes the JWT encoding cannot express;
+//!  (d) the 2^n interaction table: every condition true/false simultaneously (one canonical falsifier
+//!      each) x both fail-fast modes = 2 048 tokens.
 //!
 //! World (generated from the model tables below, so model and documents cannot drift apart):
 //!   I = did:vx:issuer  m1 (embedded in assertionMethod), m2 (general + referenced from assertionMethod),
 //!                      m3 (general only), m5 (embedded in authentication), m4 = did:vx:foreign#m4 (a
 //!                      foreign-DID method listed in I), service #rev (RevocationBitmap2022, index 5
 //!                      revoked), service #web (LinkedDomains)
-//!   J = did:vx:jay     j1 (embedded in assertionMethod)
+//!                      m6 (general + referenced from keyAgreement and capabilityDelegation); m2 is also
+//!                      referenced from capabilityInvocation
+//!   J = did:vx:jay     j1 (embedded in assertionMethod) and a method that squats on the id did:vx:issuer#m1
+//!                      with a key of J (a validator that looks the kid up in the wrong document accepts it)
 //!
 //! Oracle (DESIGN §1.5): every condition of the statement gets a three-valued expectation
 //! T / F / Open (Open = the statement leaves it undecided: executed and recorded, never demanded).
@@ -48,11 +56,19 @@ use vx::{guard, json, Ctx, Level, Value};
 
 // ------------------------------------------------------------------------------------------ case
 #[derive(Serialize, Deserialize, Debug, Clone)]
-struct Case {
-  /// binding core fixed from outside: [signature, kid, override, scope, issuer, entry]; None = asked of the chooser
-  core: Option<[u8; 6]>,
-  /// the choice sequence (later points default to 0)
-  seq: Vec<u32>,
+enum Case {
+  /// (a)/(b): a token + documents + options assembled from a choice sequence
+  Token {
+    /// binding core fixed from outside: [signature, kid, override, scope, issuer, entry]; None = asked of the chooser
+    core: Option<[u8; 6]>,
+    /// the choice sequence (later points default to 0)
+    seq: Vec<u32>,
+  },
+  /// (c) unit predicates called directly on credentials the JWT encoding cannot express
+  Dates { expires: bool, date: Option<i64>, bound: i64 },
+  Holder { shape: u8, mode: u8, nt: u8 },
+  Status { status: u8, check: u8, issuer: u8, trusted: u8 },
+  Structure { ctx: u8, types: u8, subject: u8 },
 }
 
 // ------------------------------------------------------------------------------------------ world model (tables)
@@ -63,7 +79,17 @@ const DID_J: &str = "did:vx:jay";
 enum Rel {
   Assertion,
   Authentication,
+  KeyAgreement,
+  CapDelegation,
+  CapInvocation,
 }
+const RELS: [(Rel, &str); 5] = [
+  (Rel::Assertion, "assertionMethod"),
+  (Rel::Authentication, "authentication"),
+  (Rel::KeyAgreement, "keyAgreement"),
+  (Rel::CapDelegation, "capabilityDelegation"),
+  (Rel::CapInvocation, "capabilityInvocation"),
+];
 struct MMethod {
   id: &'static str,
   /// index into KEYS
@@ -90,23 +116,28 @@ static M_I: MDoc = MDoc {
   id: DID_I,
   methods: &[
     MMethod { id: "did:vx:issuer#m1", key: 0, general: false, rels: &[Rel::Assertion] },
-    MMethod { id: "did:vx:issuer#m2", key: 1, general: true, rels: &[Rel::Assertion] },
+    MMethod { id: "did:vx:issuer#m2", key: 1, general: true, rels: &[Rel::Assertion, Rel::CapInvocation] },
     MMethod { id: "did:vx:issuer#m3", key: 2, general: true, rels: &[] },
     MMethod { id: "did:vx:foreign#m4", key: 3, general: true, rels: &[] },
     MMethod { id: "did:vx:issuer#m5", key: 4, general: false, rels: &[Rel::Authentication] },
+    MMethod { id: "did:vx:issuer#m6", key: 7, general: true, rels: &[Rel::KeyAgreement, Rel::CapDelegation] },
   ],
   services: &[("did:vx:issuer#rev", SvcKind::Bitmap), ("did:vx:issuer#web", SvcKind::Other)],
 };
 static M_J: MDoc = MDoc {
   id: DID_J,
-  methods: &[MMethod { id: "did:vx:jay#j1", key: 5, general: false, rels: &[Rel::Assertion] }],
+  methods: &[
+    MMethod { id: "did:vx:jay#j1", key: 5, general: false, rels: &[Rel::Assertion] },
+    // J squats on the id of I's m1 with a key of its own
+    MMethod { id: "did:vx:issuer#m1", key: K_SQUAT, general: true, rels: &[] },
+  ],
   services: &[],
 };
 const K_M1: usize = 0;
 const K_M3: usize = 2;
-const K_J1: usize = 5;
+const K_SQUAT: usize = 6;
 
-static KEYS: Lazy<Vec<EdKey>> = Lazy::new(|| (1..=6u8).map(EdKey::new).collect());
+static KEYS: Lazy<Vec<EdKey>> = Lazy::new(|| (1..=8u8).map(EdKey::new).collect());
 
 fn did_of(url: &str) -> &str {
   url.split('#').next().unwrap_or(url)
@@ -131,11 +162,10 @@ fn build_doc(m: &MDoc) -> CoreDocument {
   if !general.is_empty() {
     doc["verificationMethod"] = Value::Array(general);
   }
-  if !rel(Rel::Assertion).is_empty() {
-    doc["assertionMethod"] = Value::Array(rel(Rel::Assertion));
-  }
-  if !rel(Rel::Authentication).is_empty() {
-    doc["authentication"] = Value::Array(rel(Rel::Authentication));
+  for (r, name) in RELS {
+    if !rel(r).is_empty() {
+      doc[name] = Value::Array(rel(r));
+    }
   }
   let mut d = CoreDocument::from_json(&doc.to_string()).expect("world document parses");
   for (id, kind) in m.services {
@@ -166,8 +196,8 @@ struct World {
 static WORLD: Lazy<World> = Lazy::new(|| World { i: build_doc(&M_I), j: build_doc(&M_J) });
 
 // ------------------------------------------------------------------------------------------ alphabets
-const SIG_N: usize = 4; // 0 by the key of the designated method, 1 by another key of I, 2 by J's key, 3 payload changed after signing
-const KIDS: [Option<&str>; 11] = [
+const SIG_N: usize = 4; // 0 by the key of the designated method, 1 by another key of I, 2 by the key of J's squatting twin of m1, 3 payload changed after signing
+const KIDS: [Option<&str>; 12] = [
   Some("did:vx:issuer#m1"),
   Some("did:vx:issuer#m2"),
   Some("did:vx:issuer#m3"),
@@ -179,10 +209,12 @@ const KIDS: [Option<&str>; 11] = [
   Some("#m1"),                          // OPEN: fragment only
   Some("not a did url"),                // not a DID URL
   Some("did:vx:issuer?versionId=1#m1"), // OPEN: DID URL of m1 with an extra query
+  Some("did:vx:issuer#m6"),
 ];
-const KID_NAMES: [&str; 11] = ["m1", "m2", "m3", "m5", "m4-foreign", "j1", "unknown", "absent", "fragment-only", "garbage", "m1+query"];
+const KID_NAMES: [&str; 12] = ["m1", "m2", "m3", "m5", "m4-foreign", "j1", "unknown", "absent", "fragment-only", "garbage", "m1+query", "m6"];
 const OVERRIDES: [Option<&str>; 4] = [None, Some("did:vx:issuer#m1"), Some("did:vx:issuer#m3"), Some("did:vx:foreign#m4")];
-const SCOPE_NAMES: [&str; 4] = ["none", "assertionMethod", "authentication", "VerificationMethod"];
+const SCOPE_NAMES: [&str; 7] =
+  ["none", "assertionMethod", "authentication", "VerificationMethod", "keyAgreement", "capabilityDelegation", "capabilityInvocation"];
 const ISSUER_NAMES: [&str; 6] = ["I", "J", "other-did", "https-url", "I+path", "I-as-object"];
 const ENTRY_NAMES: [&str; 4] = ["validate(I)", "verify_signature([I])", "verify_signature([J,I])", "validate(J)"];
 const NONCES: [Option<&str>; 3] = [None, Some("n1"), Some("n2")];
@@ -324,7 +356,7 @@ impl Ch {
     format!(
       "entry={} sig={} kid={} override={:?} scope={} issuer={} nonce(h={:?},o={:?}) issuance={:?} claim={} expiry={:?} structure={} sh=({},{},nt={:?}) status=({},{}) fail_fast={}",
       ENTRY_NAMES[self.entry],
-      ["designated-key", "other-key-of-I", "key-of-J", "payload-changed"][self.sig],
+      ["designated-key", "other-key-of-I", "key-of-J's-squatting-twin-of-m1", "payload-changed"][self.sig],
       KID_NAMES[self.kid],
       OVERRIDES[self.ovr],
       SCOPE_NAMES[self.scope],
@@ -443,7 +475,50 @@ fn in_scope(m: &MMethod, scope: usize) -> bool {
     0 => true,
     1 => m.rels.contains(&Rel::Assertion),
     2 => m.rels.contains(&Rel::Authentication),
-    _ => m.general,
+    3 => m.general,
+    4 => m.rels.contains(&Rel::KeyAgreement),
+    5 => m.rels.contains(&Rel::CapDelegation),
+    _ => m.rels.contains(&Rel::CapInvocation),
+  }
+}
+
+/// Expectation for the status condition when the issuer's document is `sdoc` (None: the issuer has no
+/// document among the supplied ones). Second component: the status names a revoked index of an existing
+/// bitmap service of that document.
+fn status_expect(sdoc: Option<&MDoc>, status: usize, check: usize) -> (Tri, bool) {
+  if check == 2 {
+    return (T, false);
+  }
+  match STATUS[status] {
+    StatusAlt::None => (T, false),
+    StatusAlt::Unsupported => (tri(check == 1), false),
+    StatusAlt::Bitmap { base, fragment, query, prop } => {
+      let svc_id = format!("{base}#{fragment}");
+      let svc = match sdoc {
+        Some(d) if base == d.id => d.services.iter().find(|s| s.0 == svc_id).map(|s| s.1),
+        _ => None,
+      };
+      let pidx: Option<u32> = match prop {
+        Prop::Str(s) => s.parse().ok(),
+        Prop::Num(n) => Some(n),
+        Prop::Missing => None,
+      };
+      let qidx: Option<Option<u32>> = query.map(|q| q.parse().ok());
+      let names_revoked = svc == Some(SvcKind::Bitmap)
+        && (pidx.map(|i| REVOKED.contains(&i)).unwrap_or(false) || matches!(qidx, Some(Some(q)) if REVOKED.contains(&q)));
+      let t = if let Prop::Num(_) = prop {
+        Open // the documentation asks for a string; a JSON number is not covered by the statement
+      } else if pidx.is_none() || qidx == Some(None) || matches!(qidx, Some(Some(q)) if Some(q) != pidx) || svc != Some(SvcKind::Bitmap) {
+        F
+      } else if REVOKED.contains(&pidx.unwrap()) {
+        F
+      } else if query.is_none() {
+        Open // id without the index query: tolerated for backwards compatibility, not stated
+      } else {
+        T
+      };
+      (t, names_revoked)
+    }
   }
 }
 
@@ -474,7 +549,7 @@ fn expect(ch: &Ch) -> Expect {
   let (signer, tamper) = match ch.sig {
     0 => (dkey, false),
     1 => (if dkey == K_M3 { K_M1 } else { K_M3 }, false),
-    2 => (if dkey == K_J1 { K_M1 } else { K_J1 }, false),
+    2 => (K_SQUAT, false),
     _ => (dkey, true),
   };
 
@@ -543,40 +618,9 @@ fn expect(ch: &Ch) -> Expect {
     _ => tri(matches || NT[ch.nt] != Some(true)),
   };
   // --- status (looked up in the document the credential is validated against)
-  let mut names_revoked_index = false;
   let sdoc: &MDoc = if ch.entry == 3 { &M_J } else { &M_I };
-  c[STATUSC] = if ch.check == 2 {
-    T
-  } else {
-    match STATUS[ch.status] {
-      StatusAlt::None => T,
-      StatusAlt::Unsupported => tri(ch.check == 1),
-      StatusAlt::Bitmap { base, fragment, query, prop } => {
-        let svc_id = format!("{base}#{fragment}");
-        let svc = if base == sdoc.id { sdoc.services.iter().find(|s| s.0 == svc_id).map(|s| s.1) } else { None };
-        let pidx: Option<u32> = match prop {
-          Prop::Str(s) => s.parse().ok(),
-          Prop::Num(n) => Some(n),
-          Prop::Missing => None,
-        };
-        let qidx: Option<Option<u32>> = query.map(|q| q.parse().ok());
-        if svc == Some(SvcKind::Bitmap) {
-          names_revoked_index = pidx.map(|i| REVOKED.contains(&i)).unwrap_or(false) || matches!(qidx, Some(Some(q)) if REVOKED.contains(&q));
-        }
-        if let Prop::Num(_) = prop {
-          Open // the documentation asks for a string; a JSON number is not covered by the statement
-        } else if pidx.is_none() || qidx == Some(None) || matches!(qidx, Some(Some(q)) if Some(q) != pidx) || svc != Some(SvcKind::Bitmap) {
-          F
-        } else if REVOKED.contains(&pidx.unwrap()) {
-          F
-        } else if query.is_none() {
-          Open // id without the index query: tolerated for backwards compatibility, not stated
-        } else {
-          T
-        }
-      }
-    }
-  };
+  let (st, names_revoked_index) = status_expect(Some(sdoc), ch.status, ch.check);
+  c[STATUSC] = st;
 
   if !ch.is_validate() {
     // verify_signature promises the signature stage only; un-decodable claims stay an open obstacle
@@ -595,8 +639,8 @@ struct Built {
   options: JwtCredentialValidationOptions,
 }
 
-fn status_json(ch: &Ch) -> Option<Value> {
-  match STATUS[ch.status] {
+fn status_json(status: usize) -> Option<Value> {
+  match STATUS[status] {
     StatusAlt::None => None,
     StatusAlt::Unsupported => Some(json!({"id": "https://vx.example/status/24", "type": "SomeStatusList2020", "statusListIndex": "6"})),
     StatusAlt::Bitmap { base, fragment, query, prop } => {
@@ -637,7 +681,7 @@ fn build(ch: &Ch, ex: &Expect) -> Built {
     5 => json!([{"degree": "BSc"}, {"degree": "MSc"}]),
     _ => json!({"degree": "BSc"}),
   };
-  if let Some(s) = status_json(ch) {
+  if let Some(s) = status_json(ch.status) {
     vc["credentialStatus"] = s;
   }
   if let Some(nt) = NT[ch.nt] {
@@ -670,7 +714,10 @@ fn build(ch: &Ch, ex: &Expect) -> Built {
     0 => v,
     1 => v.method_scope(MethodScope::VerificationRelationship(MethodRelationship::AssertionMethod)),
     2 => v.method_scope(MethodScope::VerificationRelationship(MethodRelationship::Authentication)),
-    _ => v.method_scope(MethodScope::VerificationMethod),
+    3 => v.method_scope(MethodScope::VerificationMethod),
+    4 => v.method_scope(MethodScope::VerificationRelationship(MethodRelationship::KeyAgreement)),
+    5 => v.method_scope(MethodScope::VerificationRelationship(MethodRelationship::CapabilityDelegation)),
+    _ => v.method_scope(MethodScope::VerificationRelationship(MethodRelationship::CapabilityInvocation)),
   };
   let mut o = JwtCredentialValidationOptions::new().verification_options(v);
   if ISSUANCE[ch.issuance].0 {
@@ -779,17 +826,21 @@ mod erased {
   }
 }
 
-static SAMPLED: AtomicU64 = AtomicU64::new(0);
+/// sample candidates (hash, part, case): a deterministic subset is handed to ctx.sample at the end
+static SAMPLES: Lazy<std::sync::Mutex<Vec<(u64, &'static str, Case)>>> = Lazy::new(|| std::sync::Mutex::new(Vec::new()));
+static EXECUTED: AtomicU64 = AtomicU64::new(0);
 
 fn body(ctx: &Ctx, core: Option<[u8; 6]>, chooser: &mut Chooser) {
   let ch = read_choices(core, chooser);
-  let case = Case { core, seq: chooser.seq() };
+  let case = Case::Token { core, seq: chooser.seq() };
   let ex = expect(&ch);
   let b = build(&ch, &ex);
   let entry = if ch.is_validate() { "JwtCredentialValidator::validate" } else { "JwtCredentialValidator::verify_signature" };
   let part = if core.is_some() { "binding-core" } else { "deviations" };
-  if SAMPLED.fetch_add(1, Ordering::Relaxed) % 4001 == 0 {
-    ctx.sample(part, &case);
+  EXECUTED.fetch_add(1, Ordering::Relaxed);
+  let h = Ctx::hash_of(&(core, chooser.seq()));
+  if h % 4001 == 0 {
+    SAMPLES.lock().unwrap().push((h, part, case.clone()));
   }
 
   let validator = JwtCredentialValidator::with_signature_verifier(RealVerifier);
@@ -820,7 +871,7 @@ fn body(ctx: &Ctx, core: Option<[u8; 6]>, chooser: &mut Chooser) {
       nontrivial = true;
     }
     Ok(Ok(decoded)) => {
-      label = format!("{}:accepted", ENTRY_NAMES[ch.entry]);
+      label = format!("{}:accepted{}", ENTRY_NAMES[ch.entry], if any_open { "[some condition open]" } else { "" });
       nontrivial = true;
       if let Some(k) = false_conds.first() {
         ctx.violation(&format!("{entry}|accepted|{}", COND_NAMES[*k]), &ctxt(), &case);
@@ -878,6 +929,20 @@ fn body(ctx: &Ctx, core: Option<[u8; 6]>, chooser: &mut Chooser) {
     }
   }
   ctx.outcome(&label);
+  // how the alternatives the statement leaves open behave (recorded, never judged)
+  let verdict = label.split_once(':').map(|x| x.1).unwrap_or("");
+  if OVERRIDES[ch.ovr].is_none() && (ch.kid == 8 || ch.kid == 10) {
+    ctx.outcome(&format!("open-alternative kid={} -> {verdict}", KID_NAMES[ch.kid]));
+  }
+  if ch.issuer == 4 {
+    ctx.outcome(&format!("open-alternative issuer=I+path -> {verdict}"));
+  }
+  if ch.structure == 5 {
+    ctx.outcome(&format!("open-alternative subject-array -> {verdict}"));
+  }
+  if ch.is_validate() && ch.check != 2 && (ch.status == 3 || ch.status == 7) {
+    ctx.outcome(&format!("open-alternative status={} -> {verdict}", STATUS_NAMES[ch.status]));
+  }
   ctx.outcome(&format!("expected-false-conditions={}{}", false_conds.len().min(4), if any_open { "+open" } else { "" }));
   if nontrivial {
     ctx.distinct(&(core, chooser.seq()));
@@ -886,11 +951,286 @@ fn body(ctx: &Ctx, core: Option<[u8; 6]>, chooser: &mut Chooser) {
 
 fn eval(ctx: &Ctx, c: &Case) {
   ctx.eval1();
-  body(ctx, c.core, &mut Chooser::replay(&c.seq))
+  match c {
+    Case::Token { core, seq } => body(ctx, *core, &mut Chooser::replay(seq)),
+    _ => unit(ctx, c),
+  }
+}
+
+// ------------------------------------------------------------------------------------------ (c) unit predicates
+/// unix seconds of 0000-01-01T00:00:00Z and 9999-12-31T23:59:59Z
+const TS_MIN: i64 = -62_167_219_200;
+const TS_MAX: i64 = 253_402_300_799;
+const UNIT_DATES: [i64; 10] = [TS_MIN, TS_MIN + 1, -1, 0, 1, fx::NOW - 1, fx::NOW, fx::NOW + 1, TS_MAX - 1, TS_MAX];
+const HOLDER_SHAPES: [&str; 8] = [
+  "One(id=holder)",
+  "One(id!=holder)",
+  "One(no id)",
+  "Many[id=holder]",
+  "Many[id!=holder]",
+  "Many[]",
+  "Many[holder,other]",
+  "Many[holder,holder]",
+];
+const UNIT_CTX: [&str; 5] = ["[base,other]", "[other]", "[other,base]", "[]", "base"];
+const UNIT_TYPES: [&str; 5] = ["[base,other]", "[other]", "[]", "base", "[other,base]"];
+const UNIT_SUBJ: [&str; 6] = ["{props}", "{id}", "{}", "[]", "[{props},{id}]", "[{props},{}]"];
+const UNIT_ISSUERS: [&str; 3] = [DID_I, DID_J, "https://vx.example/issuers/14"];
+
+fn base_credential() -> identity_credential::credential::Credential<Object> {
+  identity_credential::credential::Credential::from_json(
+    &json!({"@context": [BASE_CTX, OTHER_CTX], "id": JTI, "type": [BASE_TYPE, OTHER_TYPE], "issuer": DID_I,
+            "issuanceDate": "2023-11-14T20:50:00Z", "credentialSubject": {"id": SUBJECT, "degree": "BSc"}})
+    .to_string(),
+  )
+  .expect("base credential parses")
+}
+
+/// Judge one unit predicate: `want` from the tables, `got` from the real function; `allowed` = the error
+/// variants that identify this condition.
+fn judge_unit(ctx: &Ctx, case: &Case, f: &str, want: Tri, got: Result<Result<(), JwtValidationError>, vx::Panicked>, allowed: &[&str], what: &str) -> String {
+  match got {
+    Err(p) => {
+      ctx.violation(&format!("{f}|{}", p.key()), &format!("{} | {what}", p.msg), case);
+      "panic".into()
+    }
+    Ok(Ok(())) => {
+      if want == F {
+        ctx.violation(&format!("{f}|accepted|condition-false"), what, case);
+      }
+      "ok".into()
+    }
+    Ok(Err(e)) => {
+      if want == T {
+        ctx.violation(&format!("{f}|rejected|condition-holds|{}", variant(&e)), &format!("{e:?} | {what}"), case);
+      } else if !allowed.contains(&variant(&e)) {
+        ctx.violation(&format!("{f}|wrong-error|{}", variant(&e)), &format!("{e:?} | {what}"), case);
+      }
+      format!("err:{}", variant(&e))
+    }
+  }
+}
+
+fn unit(ctx: &Ctx, case: &Case) {
+  use identity_core::common::OneOrMany;
+  use identity_credential::credential::Subject;
+  use identity_credential::validator::JwtCredentialValidatorUtils as U;
+  let mut cred = base_credential();
+  let props = || -> Object { [("degree".to_string(), json!("BSc"))].into_iter().collect() };
+  match case {
+    Case::Token { .. } => unreachable!(),
+    Case::Dates { expires, date, bound } => {
+      let (f, want, got, allowed): (&str, Tri, _, &[&str]) = if *expires {
+        cred.expiration_date = date.map(fx::ts);
+        (
+          "JwtCredentialValidatorUtils::check_expires_on_or_after",
+          tri(date.map(|d| d >= *bound).unwrap_or(true)),
+          guard(|| U::check_expires_on_or_after(&cred, fx::ts(*bound))),
+          &["ExpirationDate"],
+        )
+      } else {
+        cred.issuance_date = fx::ts(date.expect("issuance date"));
+        (
+          "JwtCredentialValidatorUtils::check_issued_on_or_before",
+          tri(date.unwrap() <= *bound),
+          guard(|| U::check_issued_on_or_before(&cred, fx::ts(*bound))),
+          &["IssuanceDate"],
+        )
+      };
+      let l = judge_unit(ctx, case, f, want, got, allowed, &format!("date {date:?} bound {bound}"));
+      ctx.outcome(&format!("unit:{}:{l}", if *expires { "expires" } else { "issued" }));
+    }
+    Case::Holder { shape, mode, nt } => {
+      let h = Url::parse(SUBJECT).unwrap();
+      let o = Url::parse(NOT_SUBJECT).unwrap();
+      let with = |u: &Url| Subject::with_id_and_properties(u.clone(), props());
+      cred.credential_subject = match shape {
+        0 => OneOrMany::One(with(&h)),
+        1 => OneOrMany::One(with(&o)),
+        2 => OneOrMany::One(Subject::with_properties(props())),
+        3 => OneOrMany::Many(vec![with(&h)]),
+        4 => OneOrMany::Many(vec![with(&o)]),
+        5 => OneOrMany::Many(vec![]),
+        6 => OneOrMany::Many(vec![with(&h), with(&o)]),
+        _ => OneOrMany::Many(vec![with(&h), with(&h)]),
+      };
+      cred.non_transferable = NT[*nt as usize];
+      let rel = [SubjectHolderRelationship::AlwaysSubject, SubjectHolderRelationship::SubjectOnNonTransferable, SubjectHolderRelationship::Any][*mode as usize];
+      // how zero or several subjects relate to ONE holder is not stated: Open unless the mode does not ask for a match at all
+      let matches = match shape {
+        0 | 3 => T,
+        1 | 2 | 4 => F,
+        _ => Open,
+      };
+      let want = match mode {
+        2 => T,
+        1 if NT[*nt as usize] != Some(true) => T,
+        _ => matches,
+      };
+      let got = guard(|| U::check_subject_holder_relationship(&cred, &h, rel));
+      let what = format!("subjects {} mode {} nonTransferable {:?}", HOLDER_SHAPES[*shape as usize], SH_MODES[*mode as usize + 1], NT[*nt as usize]);
+      let l = judge_unit(ctx, case, "JwtCredentialValidatorUtils::check_subject_holder_relationship", want, got, &["SubjectHolderRelationship"], &what);
+      ctx.outcome(&format!("unit:subject-holder:{l}{}", if want == Open { "[open]" } else { "" }));
+    }
+    Case::Status { status, check, issuer, trusted } => {
+      let w: &World = &WORLD;
+      let (docs, mdocs): (Vec<&CoreDocument>, Vec<&MDoc>) = match trusted {
+        0 => (vec![&w.i], vec![&M_I]),
+        1 => (vec![&w.j, &w.i], vec![&M_J, &M_I]),
+        _ => (vec![&w.j], vec![&M_J]),
+      };
+      let iss = UNIT_ISSUERS[*issuer as usize];
+      cred.issuer = identity_credential::credential::Issuer::Url(Url::parse(iss).unwrap());
+      cred.credential_status = status_json(*status as usize).map(|v| serde_json::from_value(v).expect("status parses"));
+      let sdoc = mdocs.iter().find(|d| d.id == iss).copied();
+      let (want, names_revoked) = status_expect(sdoc, *status as usize, *check as usize);
+      let mode = [StatusCheck::Strict, StatusCheck::SkipUnsupported, StatusCheck::SkipAll][*check as usize];
+      let got = guard(|| U::check_status(&cred, &docs, mode));
+      if let Ok(Err(e)) = &got {
+        if variant(e) == "Revoked" && !names_revoked {
+          ctx.violation("JwtCredentialValidatorUtils::check_status|Revoked-reported|index-not-revoked", &format!("{e:?}"), case);
+        }
+      }
+      let what = format!("status {} {} issuer {iss} trusted {:?}", STATUS_NAMES[*status as usize], CHECKS[*check as usize], mdocs.iter().map(|d| d.id).collect::<Vec<_>>());
+      let l = judge_unit(
+        ctx,
+        case,
+        "JwtCredentialValidatorUtils::check_status",
+        want,
+        got,
+        &["InvalidStatus", "ServiceLookupError", "Revoked", "DocumentMismatch", "SignerUrl"],
+        &what,
+      );
+      ctx.outcome(&format!("unit:status:{l}{}", if want == Open { "[open]" } else { "" }));
+    }
+    Case::Structure { ctx: c, types, subject } => {
+      let ctx_v = [json!([BASE_CTX, OTHER_CTX]), json!([OTHER_CTX]), json!([OTHER_CTX, BASE_CTX]), json!([]), json!(BASE_CTX)];
+      let types_v = [json!([BASE_TYPE, OTHER_TYPE]), json!([OTHER_TYPE]), json!([]), json!(BASE_TYPE), json!([OTHER_TYPE, BASE_TYPE])];
+      let subj_v =
+        [json!({"degree": "BSc"}), json!({"id": SUBJECT}), json!({}), json!([]), json!([{"degree": "BSc"}, {"id": SUBJECT}]), json!([{"degree": "BSc"}, {}])];
+      let v = json!({"@context": ctx_v[*c as usize], "type": types_v[*types as usize], "credentialSubject": subj_v[*subject as usize],
+                     "issuer": DID_I, "issuanceDate": "2023-11-14T20:50:00Z"});
+      let what = format!("@context {} type {} credentialSubject {}", UNIT_CTX[*c as usize], UNIT_TYPES[*types as usize], UNIT_SUBJ[*subject as usize]);
+      // VC data model: first context is the base context; the types contain VerifiableCredential; at least one
+      // subject and no subject is an empty object
+      let want = tri(matches!(c, 0 | 4) && matches!(types, 0 | 3 | 4) && matches!(subject, 0 | 1 | 4));
+      match guard(|| identity_credential::credential::Credential::<Object>::from_json(&v.to_string())) {
+        Err(p) => {
+          ctx.violation(&format!("Credential::from_json|{}", p.key()), &format!("{} | {what}", p.msg), case);
+          ctx.outcome("unit:structure:panic");
+        }
+        Ok(Err(e)) => {
+          if want == T {
+            ctx.violation("Credential::from_json|rejected|well-formed-credential", &format!("{e} | {what}"), case);
+          }
+          ctx.outcome("unit:structure:not-deserializable");
+        }
+        Ok(Ok(cr)) => {
+          let l = judge_unit(ctx, case, "JwtCredentialValidatorUtils::check_structure", want, guard(|| U::check_structure(&cr)), &["CredentialStructure"], &what);
+          let direct = guard(|| cr.check_structure());
+          if !matches!((&direct, want), (Ok(Ok(())), T) | (Ok(Err(_)), F)) {
+            ctx.violation("Credential::check_structure|disagrees-with-data-model", &format!("{:?} | {what}", direct.map(|r| r.map_err(|e| e.to_string()))), case);
+          }
+          ctx.outcome(&format!("unit:structure:{l}"));
+        }
+      }
+    }
+  }
+  ctx.distinct(&serde_json::to_string(case).unwrap_or_default());
+}
+
+/// (d) the 2^n interaction table of the statement: every condition true / false through one canonical
+/// falsifier each (the selector conditions kid / document / scope exclude one another and form one
+/// 4-valued column), both fail-fast modes, on `validate` with I.
+fn generate_table(ctx: &Ctx) {
+  let mut seqs: Vec<Vec<u32>> = Vec::new();
+  for bits in 0..256u32 {
+    let b = |i: u32| (bits >> i) & 1;
+    for selector in 0..4u32 {
+      for ff in 0..2u32 {
+        let (kid, scope) = [(0, 0), (7, 0), (4, 0), (2, 1)][selector as usize]; // ok, kid absent, foreign-DID method, m3 outside assertionMethod
+        seqs.push(vec![
+          b(0),      // signature: by another key of I
+          kid,       //
+          0,         // no override
+          scope,     //
+          b(1),      // issuer: J
+          0,         // validate(I)
+          b(2) * 3,  // nonce: header n1, option none
+          b(3) * 2,  // issuance: bound + 1 s
+          0,         // nbf
+          b(4) * 3,  // expiry: bound - 1 s
+          b(5) * 3,  // structure: no base type
+          b(6) * 12, // AlwaysSubject, holder != subject
+          b(7) * 6,  // status: revoked index, Strict
+          ff,
+        ]);
+      }
+    }
+  }
+  ctx.sample("truth-table", &Case::Token { core: None, seq: seqs[2047].clone() });
+  seqs.par_iter().for_each(|s| body(ctx, None, &mut Chooser::replay(s)));
+  let n = seqs.len() as u64;
+  ctx.add_evals(n);
+  ctx.add_states(n);
+  ctx.add_transitions(n);
+  ctx.add_traces(n);
+  ctx.part("truth-table", json!({"engine": "E1 full product", "cases": n, "columns": "signature(2) x selector(4) x issuer(2) x nonce(2) x issuance(2) x expiry(2) x structure(2) x subject-holder(2) x status(2) x fail-fast(2)"}));
+}
+
+fn generate_units(ctx: &Ctx) {
+  let mut cases: Vec<Case> = Vec::new();
+  for bound in UNIT_DATES {
+    for date in UNIT_DATES {
+      cases.push(Case::Dates { expires: false, date: Some(date), bound });
+      cases.push(Case::Dates { expires: true, date: Some(date), bound });
+    }
+    cases.push(Case::Dates { expires: true, date: None, bound });
+  }
+  let n_dates = cases.len();
+  for shape in 0..HOLDER_SHAPES.len() as u8 {
+    for mode in 0..3u8 {
+      for nt in 0..3u8 {
+        cases.push(Case::Holder { shape, mode, nt });
+      }
+    }
+  }
+  let n_holder = cases.len() - n_dates;
+  for status in 0..STATUS.len() as u8 {
+    for check in 0..3u8 {
+      for issuer in 0..UNIT_ISSUERS.len() as u8 {
+        for trusted in 0..3u8 {
+          cases.push(Case::Status { status, check, issuer, trusted });
+        }
+      }
+    }
+  }
+  let n_status = cases.len() - n_dates - n_holder;
+  for c in 0..UNIT_CTX.len() as u8 {
+    for types in 0..UNIT_TYPES.len() as u8 {
+      for subject in 0..UNIT_SUBJ.len() as u8 {
+        cases.push(Case::Structure { ctx: c, types, subject });
+      }
+    }
+  }
+  let n_structure = cases.len() - n_dates - n_holder - n_status;
+  for i in [0, n_dates, n_dates + n_holder, n_dates + n_holder + n_status] {
+    ctx.sample("unit-predicates", &cases[i]);
+  }
+  cases.par_iter().for_each(|c| eval(ctx, c));
+  let n = cases.len() as u64;
+  ctx.add_states(n);
+  ctx.add_transitions(n);
+  ctx.add_traces(n);
+  ctx.part(
+    "unit-predicates",
+    json!({"engine": "E1 full products", "cases": n, "dates(10 bounds x (10 issuance + 11 expiry))": n_dates, "subject-holder(8 shapes x 3 modes x 3 nonTransferable)": n_holder,
+           "status(14 shapes x 3 modes x 3 issuers x 3 trusted sets)": n_status, "structure(5 contexts x 5 types x 6 subjects)": n_structure}),
+  );
 }
 
 fn generate(ctx: &Ctx) {
-  ctx.rule("E1: (a) every choice sequence with <= bound deviations from the benign default over 14 choice points (the nonce, subject-holder and status tables are each ONE point holding their full product); (b) full product signature(4) x kid(11) x override(4) x scope(4) x issuer(6) x entry(4), crossed with <= core_other_deviations other deviations. distinct_nontrivial = distinct (core, choice sequence) whose outcome is not the early nonce reject");
+  ctx.rule("E1: (a) every choice sequence with <= bound deviations from the benign default over 14 choice points (the nonce, subject-holder and status tables are each ONE point holding their full product); (b) full product signature(4) x kid(12) x override(4) x scope(7) x issuer(6) x entry(4), crossed with <= core_other_deviations other deviations; (c) full products over the public unit predicates (dates, subject-holder, status, structure) on credentials built directly; (d) the 2^n table of all conditions true/false x fail-fast. distinct_nontrivial = distinct (core, choice sequence) whose outcome is not the early nonce reject, plus every unit-predicate case");
   ctx.assume("Ed25519 signing of the harness (iota-crypto) and base64url are correct; the EdDSA verifier is the repository's own (identity_eddsa_verifier) — its binding to the bytes is C01's subject");
   ctx.assume("world documents are produced by CoreDocument::from_json / RevocationBitmap::to_service from the model tables; that these parse and serve index 5 as revoked is self-checked before exploring");
   ctx.assume("clock owned: now = 2023-11-14T22:13:20Z on every thread");
@@ -900,7 +1240,13 @@ fn generate(ctx: &Ctx) {
   let bm = w.i.resolve_revocation_bitmap(DIDUrl::parse("did:vx:issuer#rev").unwrap().into());
   ctx.require(matches!(&bm, Ok(b) if b.is_revoked(5) && !b.is_revoked(6)), "fixture: bitmap service of I does not serve {5}");
   ctx.require(w.i.resolve_method("did:vx:foreign#m4", None).is_some(), "fixture: foreign method m4 is not listed in I");
+  ctx.require(w.j.resolve_method("did:vx:issuer#m1", None).is_some(), "fixture: squatting method is not listed in J");
   ctx.require(Timestamp::now_utc().to_unix() == fx::NOW, "fixture: clock not owned");
+
+  // (c) unit predicates, full products (both tiers)
+  generate_units(ctx);
+  // (d) the 2^n table
+  generate_table(ctx);
 
   // (a) deviation-bounded
   let bound = ctx.by_tier(2u32, 3u32);
@@ -941,13 +1287,21 @@ fn generate(ctx: &Ctx) {
     "binding-core",
     json!({"engine": "E1 full product x choice DFS", "core_cells": cores.len(), "other_deviation_bound": other, "executions": totals.0, "choice_tree_nodes": totals.1, "edges": totals.2}),
   );
+  let mut samples = std::mem::take(&mut *SAMPLES.lock().unwrap());
+  samples.sort_by_key(|x| x.0);
+  for part in ["deviations", "binding-core"] {
+    for (_, p, c) in samples.iter().filter(|x| x.1 == part).take(3) {
+      ctx.sample(p, c);
+    }
+  }
+  ctx.require(EXECUTED.load(Ordering::Relaxed) > 0, "no token case executed");
   ctx.bound("core_cells", cores.len());
   ctx.bound("core_other_deviations", other);
   let sizes: BTreeMap<&str, usize> = [
     ("signature", SIG_N),
     ("kid", KIDS.len()),
     ("override", OVERRIDES.len()),
-    ("scope", 4),
+    ("scope", SCOPE_NAMES.len()),
     ("issuer", 6),
     ("entry", 4),
     ("nonce", 9),
